@@ -32,6 +32,10 @@ const (
 func countLines(r io.Reader) uint64 {
 	var count uint64
 	fileScanner := bufio.NewScanner(r)
+	// count lines with the same limits as GetMessages reads them, otherwise
+	// counting stops at the first line longer than the default 64 KiB token size
+	buf := make([]byte, 0, 64*1024)
+	fileScanner.Buffer(buf, 1024*1024)
 
 	for fileScanner.Scan() {
 		count++
